@@ -1,6 +1,7 @@
 #!/bin/sh
 # usage: trymutant.sh <patch.diff> <PROP>...   applies the patch to /repo, runs the quick checks, reverts
 P=$1; shift
+git -C /repo diff --quiet || { echo "REPO HAS UNCOMMITTED CHANGES - commit first"; exit 3; }
 cd /repo && git apply $P || { echo "PATCH DOES NOT APPLY"; exit 2; }
 for id in "$@"; do (cd /verif && ./check $id quick 2>&1 | grep -E "VIOLATION|^check|KNOWN" | cut -c1-260); done
 cd /repo && git checkout -- . 
